@@ -22,5 +22,12 @@ func init() {
 		{Pkg: ts, Func: "isValidStoreType"},
 		{Pkg: ts, Func: "ValidateCertificates"},
 		{Pkg: ts, Func: "isRootCACertificate"},
+		// GetCertificates itself is outside the subset; the rows below keep the reason in the log
+		// (docs/audit/C13.md, section GoLite): variadic calls (truststore.go:74 SysPath and
+		// dir.X509TrustStoreDir, :98 filepath.Join), the bit test mode&fs.ModeSymlink (:87),
+		// append(certificates, certs...) (:117).
+		{Pkg: ".../dir", Type: "SysFS", Opaque: true},
+		{Pkg: "path/filepath", Func: "Join", Oracle: true},
+		{Pkg: ts, Func: "(*x509TrustStore).GetCertificates"},
 	})
 }
